@@ -442,7 +442,12 @@ func (ps *PathSim) exec(fn *ssa.Function, st *pstate, ins ssa.Instruction) {
 		delete(st.escaped, x)
 	case *ssa.MakeSlice, *ssa.MakeMap, *ssa.MakeChan:
 		v := ins.(ssa.Value)
-		st.env[v] = &Sym{K: sFresh, V: v, T: v.Type(), iter: gen(v)}
+		fs := &Sym{K: sFresh, V: v, T: v.Type(), iter: gen(v)}
+		if mk, ok := ins.(*ssa.MakeSlice); ok {
+			// the length the slice is made with (Kids[0]); the key of a fresh value does not depend on it
+			fs.Kids = []*Sym{ps.sym(st, mk.Len)}
+		}
+		st.env[v] = fs
 	case *ssa.MakeClosure:
 		s := &Sym{K: sClosure, V: x, T: x.Type(), iter: gen(x)}
 		for _, b := range x.Bindings {
